@@ -876,3 +876,22 @@ pub fn parallel<T: Send + 'static>(
         .collect();
     hs.into_iter().map(|h| h.join().expect("worker panicked")).collect()
 }
+
+
+/// Polls the wrapped future under `catch_unwind`: a panic that comes out of an awaited library call
+/// (instead of an error value) becomes `Err(message)` and does not take the history down.
+pub struct CatchUnwind<F>(std::pin::Pin<Box<F>>);
+pub fn catching<F: std::future::Future>(f: F) -> CatchUnwind<F> {
+    CatchUnwind(Box::pin(f))
+}
+impl<F: std::future::Future> std::future::Future for CatchUnwind<F> {
+    type Output = Result<F::Output, String>;
+    fn poll(mut self: std::pin::Pin<&mut Self>, cx: &mut std::task::Context<'_>) -> std::task::Poll<Self::Output> {
+        let inner = self.0.as_mut();
+        match std::panic::catch_unwind(std::panic::AssertUnwindSafe(|| inner.poll(cx))) {
+            Ok(std::task::Poll::Ready(v)) => std::task::Poll::Ready(Ok(v)),
+            Ok(std::task::Poll::Pending) => std::task::Poll::Pending,
+            Err(p) => std::task::Poll::Ready(Err(panic_message(&*p))),
+        }
+    }
+}
